@@ -512,7 +512,7 @@ pub fn case(batch: &str, tier: &str, i: u64) -> CaseOut {
         return out;
     }
     let fresh = batch == "fresh";
-    let c = gen_case(seed, tier != "quick", fresh);
+    let c = gen_case(seed, !tier.starts_with("quick"), fresh);
     out.steps = c.res.next_calls;
     out.log = c.res.log;
     let nf: u64 = c.res.faults.values().sum();
@@ -864,6 +864,37 @@ pub fn run(tier: &str) -> i32 {
             }
         }
     }
+    // the same simulated runs, fewer, by the dev-profile binary (overflow checks,
+    // debug assertions): a change that only misbehaves in one build profile
+    {
+        let n_dev: u64 = if quick { 120 } else { 3000 };
+        let tdev = format!("{tier}/dev");
+        let chunks = run_batch("C15", "inproc", n_dev, chunk, &tdev, true);
+        for (ci, ch) in chunks.iter().enumerate() {
+            let chunk_first = ci as u64 * chunk;
+            if let Some((i, how)) = &ch.died {
+                ev.violations.push(Violation {
+                    property: "C15".into(),
+                    oracle: "process_died".into(),
+                    key: format!("dev:process_died:history:inproc:{chunk_first}..={i}"),
+                    detail: format!("[dev profile] the process running the evaluators ended with {how} at case {i}"),
+                    seed: vs,
+                    replay: json!({"kind":"chunk","batch":"inproc","first":chunk_first,"upto":i,"tier":tdev,"profile":"dev","expected_oracle":"process_died"}),
+                });
+            }
+            for c in &ch.cases {
+                ev.merge_case(c);
+                ev.fault("profile_dev", 1);
+                logfold.add(c.log);
+                if c.violation.is_some() && ev.violations.len() < 5 {
+                    let mut v = settle_violation("C15", "inproc", &tdev, true, chunk_first, c, &minimise_json, &key_json);
+                    v.detail = format!("[dev profile] {}", v.detail);
+                    v.key = format!("dev:{}", v.key);
+                    ev.violations.push(v);
+                }
+            }
+        }
+    }
     ev.probe("distinct_schedule_traces", traces.len() as u64);
 
     // Miri tier: thorough always; quick only when the inventory is non-empty
@@ -918,7 +949,8 @@ pub fn replay(v: &Value) -> Option<(String, String)> {
         "chunk" => replay_chunk("C15", r),
         "c15_run" => {
             let run = Run::from_json(r).ok()?;
-            eval_in_child("C15", r, false).map(|(k, d)| (run_key(&k, &run), d))
+            let dev = r["profile"].as_str() == Some("dev");
+            eval_in_child("C15", r, dev).map(|(k, d)| (format!("{}{}", if dev { "dev:" } else { "" }, run_key(&k, &run)), d))
         }
         "c15_sendsync" => match sendsync_probe() {
             Ok((false, diag)) => {
